@@ -251,7 +251,9 @@ func (w *c41Worker) run(bi int, beh []map[string]any, res *vh.Result) {
 				}
 				if time.Now().After(deadline) {
 					sv := svs[i]
-					if state == "collecting" && sv != nil && isClosed(sv.exited) {
+					if state == "collecting" && sv != nil && !ok && !isClosed(sv.exited) {
+					violate("unregistered-while-collecting", fmt.Sprintf("survey %d is waiting for answers but is not in the survey registry: no answer can reach it", i))
+				} else if state == "collecting" && sv != nil && isClosed(sv.exited) {
 						violate("early-return", fmt.Sprintf("survey %d finished collecting although only %s answered and the deadline has not passed", i, answered(vh.Map(at(st["results"], i)))))
 					} else {
 						drift(fmt.Sprintf("survey %d in model state %s: registered=%v channel len=%d, model buffer %d", i, state, ok, l, want))
